@@ -110,6 +110,7 @@ func ruleC16(c *Check, p *Prog) {
 		checkRunner(c, p, rs, "", "R-PASS")
 	}
 	checkIgamcGuards(c, p)
+	checkLogOfCountGuards(c, p, "ApproximateEntropyProto")
 }
 
 // ---- C17 ----
@@ -712,4 +713,85 @@ func checkIgamcGuards(c *Check, p *Prog) {
 	c.Expect(len(probs) == 0, "R-FINITE-GUARDS", "igamc", where,
 		"igamc clamps to 1 for x<=0 or a<=0, cuts underflow to 0, divides by qk only when it is non-zero and rescales all four continued-fraction state variables when |pk| > 2^52 (no Inf/Inf at large shapes)",
 		strings.Join(probs, "; "))
+}
+
+// checkLogOfCountGuards: a logarithm of a table counter (c*log(c/n) terms of an entropy) is evaluated only under a
+// condition that makes the counter positive; 0*log(0) is NaN in IEEE arithmetic, and short or degenerate admissible
+// sequences do leave patterns unseen.
+func checkLogOfCountGuards(c *Check, p *Prog, name string) {
+	fn := p.Func(pkgRoot, name)
+	if fn == nil {
+		c.Fail("R-FINITE-GUARDS", name+"/log", "-", "function not found")
+		return
+	}
+	x := NewExt(p, NewStore(), numConfig(fn))
+	sum := x.Summarize(fn, nil, nil)
+	S := x.S
+	where := p.Pos(fn.Pos())
+	if len(sum.Undecided) > 0 {
+		c.Undecided("R-FINITE-GUARDS", name+"/log", where, "%s", strings.Join(sum.Undecided, "; "))
+		return
+	}
+	// the counter a logarithm's argument is built from: i2f(k), i2f(k)/y, ...
+	var countOf func(t *Term) *Term
+	countOf = func(t *Term) *Term {
+		switch t.Op {
+		case "i2f":
+			k := t.Args[0]
+			if (k.K == KSym && k.Sym.Ev != nil && k.Sym.Ev.Kind == "load") || k.Op == "ld" {
+				return k
+			}
+		case "fdiv", "fmul":
+			return countOf(t.Args[0])
+		}
+		return nil
+	}
+	nLogs := 0
+	var bad []string
+	var walk func(t *Term, ctx *Term, seen map[*Term]bool)
+	walk = func(t *Term, ctx *Term, seen map[*Term]bool) {
+		if t == nil || t.K != KOp {
+			return
+		}
+		if t.Op == "ite" {
+			walk(t.Args[0], ctx, seen)
+			walk(t.Args[1], S.And(ctx, t.Args[0]), map[*Term]bool{})
+			walk(t.Args[2], S.And(ctx, S.Not(t.Args[0])), map[*Term]bool{})
+			return
+		}
+		if seen[t] {
+			return
+		}
+		seen[t] = true
+		if t.Op == "call:math.Log" && len(t.Args) == 1 {
+			if k := countOf(t.Args[0]); k != nil {
+				nLogs++
+				pos := S.Implies(ctx, S.Cmp(">", k, S.Int(0))) || S.Implies(ctx, S.Cmp("!=", k, S.Int(0)))
+				if !pos {
+					bad = append(bad, fmt.Sprintf("log(%v) is evaluated under %v, which does not exclude a zero counter", t.Args[0], ctx))
+				}
+			}
+		}
+		for _, a := range t.Args {
+			walk(a, ctx, seen)
+		}
+	}
+	sum.Top.AllLoops(func(l *LoopS) {
+		for _, cv := range l.Carried {
+			walk(cv.Next, S.True, map[*Term]bool{})
+		}
+	})
+	sum.Top.Events(func(e *Event, _ []*LoopS) {
+		g := e.Guard
+		if g == nil {
+			g = S.True
+		}
+		walk(e.Val, g, map[*Term]bool{})
+		for _, r := range e.Rets {
+			walk(r, g, map[*Term]bool{})
+		}
+	})
+	c.Expect(len(bad) == 0 && nLogs >= 1, "R-FINITE-GUARDS", name+"/log", where,
+		fmt.Sprintf("each of the %d logarithms of a pattern counter is taken only where that counter is positive (no 0*log 0 = NaN for unseen patterns)", nLogs),
+		strings.Join(bad, "; ")+map[bool]string{true: "no logarithm of a counter found", false: ""}[nLogs == 0])
 }
